@@ -85,3 +85,17 @@ Proof.
   pose proof keystore_programs_nonreentrant as H. unfold programs_ok in H.
   rewrite forallb_forall in H. apply H. apply Hin. exact Hp.
 Qed.
+
+(** every path of Save that touches the mutex takes the WRITE lock (a saver that only read-locks does not exclude the readers
+    of the file it is writing) *)
+Definition is_save (name : bytes) : bool :=
+  match name with
+  | x53 :: x61 :: x76 :: x65 :: x23 :: _ => true      (* "Save#" *)
+  | _ => false
+  end.
+Definition save_paths_write_locked : bool :=
+  forallb (fun np => negb (is_save (fst np)) || match snd np with [] => true | OpLock :: _ => true | _ => false end)
+          GenKeystore.lock_programs &&
+  existsb (fun np => is_save (fst np) && match snd np with OpLock :: _ => true | _ => false end) GenKeystore.lock_programs.
+Theorem keystore_save_takes_write_lock : save_paths_write_locked = true.
+Proof. vm_compute. reflexivity. Qed.
